@@ -523,7 +523,7 @@ def config(draw, profile_name):
         if cfg["compression"] is False and draw(st.booleans()):
             cfg["pass_compression"] = True
     if draw(st.booleans()):
-        cfg["meta"] = draw(st.sampled_from([{"foo": "bar"}, {"n": 1, "ünï": "cödé"}, {"x": [1, 2], "y": None}]))
+        cfg["meta"] = draw(st.sampled_from([{"foo": "bar"}, {"n": 1, "ünï": "cödé"}, {"x": [1, 2], "y": None}, {"$comment": "mine", "US$": 5}]))
         if draw(st.sampled_from([0, 0, 1])):
             cfg["presave"] = True
     if draw(st.sampled_from([0, 0, 0, 1])):
